@@ -221,7 +221,7 @@ def gen_dsort_case(rng):
     n = rng.choice([0, 1, 2, 3, 4, 6, 9, 14])
     if rng.random() < 0.03:
         n = rng.choice([129, 200, 300])       # long tables: any size-dependent path of the sorting code
-    names = rng.sample(['a', 'b', 'c'], rng.randint(1, 3))
+    names = rng.sample(['a', 'b', 'c'] if rng.random() > 0.1 else ['data', 'columns', 'key'], rng.randint(1, 3))
     fams = {c: rng.choice(['num', 'nan', 'str', 'dt', 'none', 'mixed']) for c in names}
     cols = {c: [sort_scalar(rng, fams[c]) for _ in range(n)] for c in names}
     cols['id'] = list(range(n))
